@@ -276,6 +276,19 @@ impl Datagrams {
         + self.contents.len()
     }
 
+    /// Returns whether the relay can forward these datagrams to another client.
+    ///
+    /// The relay re-frames them as a [`RelayToClientMsg::Datagrams`] (frame type, the
+    /// sender's [`EndpointId`], then the datagrams). The receiving connection refuses to
+    /// write empty datagrams and frames that are larger than [`MAX_PACKET_SIZE`].
+    #[cfg(feature = "server")]
+    pub(crate) fn is_forwardable(&self) -> bool {
+        let relayed_len = FrameType::RelayToClientDatagram.encoded_len()
+            + EndpointId::LENGTH
+            + self.encoded_len();
+        !self.contents.is_empty() && relayed_len <= MAX_PACKET_SIZE
+    }
+
     #[allow(clippy::len_zero, clippy::result_large_err)]
     fn from_bytes(mut bytes: Bytes, is_batch: bool) -> Result<Self, Error> {
         if is_batch {
